@@ -56,8 +56,8 @@ pub fn passes(tier: &str) -> Vec<Pass> {
         v.push(mk("delete-while-journals-pinned", d.clone(), a, "two_sealed_journals_z", if q { 4 } else { 6 }, 4, if q { 6.0 } else { 200.0 }));
     }
     if !q {
-        v.push(mk("tiny", Cfg { tiny: true, ..d.clone() }, alpha(false), "", 5, 4, 200.0));
-        v.push(mk("blob", Cfg { blob: true, ..d.clone() }, alpha(false), "", 5, 4, 200.0));
+        v.push(mk("tiny", Cfg { tiny: true, ..d.clone() }, alpha(false), "", 6, 4, 300.0));
+        v.push(mk("blob", Cfg { blob: true, ..d.clone() }, alpha(false), "", 6, 4, 300.0));
     }
     v
 }
